@@ -1,7 +1,11 @@
-// Kani harness for Header::parse (C19): the function is loop-free and reads at most 44 bytes, so 44 symbolic bytes with a
-// symbolic length cover every input. Injected as a child module of src/local/mod.rs in a scratch copy of /repo.
+// Kani harness for Header::parse (C18 decode / C19): the function is loop-free and reads at most 44 bytes, so 48 symbolic bytes
+// with a symbolic length cover every input. Injected as a child module of src/local/mod.rs in a scratch copy of /repo.
 use super::cursor::Cursor;
-use super::header::Header;
+use super::header::{Header, Version};
+
+fn be(b: &[u8; 48], i: usize) -> usize {
+    u32::from_be_bytes([b[i], b[i + 1], b[i + 2], b[i + 3]]) as usize
+}
 
 #[kani::proof]
 #[kani::unwind(6)]
@@ -10,12 +14,22 @@ fn header_parse_total() {
     let len: usize = kani::any();
     kani::assume(len <= 48);
     let mut cursor = Cursor::new(&bytes[..len]);
-    // never panics; Ok only for complete headers with a supported version
-    if let Ok(h) = Header::parse(&mut cursor) {
-        assert!(len >= 44);
-        assert!(bytes[0] == b'T' && bytes[1] == b'Z' && bytes[2] == b'i' && bytes[3] == b'f');
-        assert!(bytes[4] == 0 || bytes[4] == 0x32 || bytes[4] == 0x33);
-        assert!(h.transition_count == u32::from_be_bytes([bytes[32], bytes[33], bytes[34], bytes[35]]) as usize);
-        assert!(h.type_count == u32::from_be_bytes([bytes[36], bytes[37], bytes[38], bytes[39]]) as usize);
+    let magic = bytes[0] == b'T' && bytes[1] == b'Z' && bytes[2] == b'i' && bytes[3] == b'f';
+    let version = bytes[4] == 0 || bytes[4] == 0x32 || bytes[4] == 0x33;
+    // never panics; Ok exactly for complete headers with the magic and a supported version; every field is what RFC 8536 lays out
+    match Header::parse(&mut cursor) {
+        Ok(h) => {
+            assert!(len >= 44 && magic && version);
+            assert!((h.ver == Version::V1) == (bytes[4] == 0) && (h.ver == Version::V2) == (bytes[4] == 0x32) && (h.ver == Version::V3) == (bytes[4] == 0x33));
+            assert!(h.isut_count == be(&bytes, 20));
+            assert!(h.isstd_count == be(&bytes, 24));
+            assert!(h.leap_count == be(&bytes, 28));
+            assert!(h.transition_count == be(&bytes, 32));
+            assert!(h.type_count == be(&bytes, 36));
+            assert!(h.char_count == be(&bytes, 40));
+            // exactly the 44 header bytes are consumed
+            assert!(cursor.remaining().len() == len - 44);
+        }
+        Err(_) => assert!(len < 44 || !magic || !version),
     }
 }
